@@ -425,7 +425,7 @@ type outObs struct {
 	detail   string
 }
 
-func runOutboundOnce(dialled string, chain []*crt) (outObs, error) {
+func runOutboundOnce(dialled string, chain []*crt, pairPresented bool) (outObs, error) {
 	e := newHub(0)
 	defer e.stop() // runs after the server below has released its connection
 	tc := tls.Certificate{PrivateKey: chain[0].priv, Leaf: chain[0].leaf}
@@ -484,6 +484,13 @@ func runOutboundOnce(dialled string, chain []*crt) (outObs, error) {
 	}()
 
 	e.h.VerifSetStarted(true) // no listener needed; RegisterRemoteSKI then queues the SKI for an immediate dial
+	if pairPresented {
+		// the device whose certificate the server presents is itself a paired one (it is not
+		// visible, so it is not dialled): the binding to the DIALLED SKI must not depend on it
+		if pres := presentedSKI(chain[0]); pres != dialled {
+			e.h.RegisterRemoteSKI(pres)
+		}
+	}
 	e.h.RegisterRemoteSKI(dialled)
 	norm := e.h.ServiceForSKI(dialled).SKI()
 	if norm != dialled {
@@ -550,16 +557,24 @@ func runOutbound(sc outScen, victim *crt) (vh.Case, error) {
 			dialled = hex.EncodeToString(first.sha[:]) // its real identity, which it does not claim
 		}
 	}
-	return outboundCase(fmt.Sprintf("sys_out_%s_dial_%s_%d", sc.kind, sc.dial, len(chain)), dialled, chain)
+	return outboundCase(fmt.Sprintf("sys_out_%s_dial_%s_%d", sc.kind, sc.dial, len(chain)), dialled, chain, r.Chance(40))
+}
+
+// the SKI a certificate claims (its extension, else the hash of its key), as 40 hex digits
+func presentedSKI(c *crt) string {
+	if c.hasSki && len(c.skiExt) > 0 {
+		return hex.EncodeToString(c.skiExt)
+	}
+	return hex.EncodeToString(c.sha[:])
 }
 
 // outboundCase makes a fresh hub dial a server presenting chain and writes the case.
-func outboundCase(kind, dialled string, chain []*crt) (vh.Case, error) {
+func outboundCase(kind, dialled string, chain []*crt, pairPresented bool) (vh.Case, error) {
 	first := chain[0]
 	var ob outObs
 	var err error
 	for attempt := 0; attempt < 3; attempt++ {
-		p := guard(func() { ob, err = runOutboundOnce(dialled, chain) })
+		p := guard(func() { ob, err = runOutboundOnce(dialled, chain, pairPresented) })
 		if p != nil {
 			return vh.Case{}, fmt.Errorf("panic in outbound session: %v", p)
 		}
@@ -584,9 +599,9 @@ func outboundCase(kind, dialled string, chain []*crt) (vh.Case, error) {
 	return vh.Case{
 		Coq:        fmt.Sprintf("COut %s %s (%s)", vh.HxS(dialled), coqCerts(chain), got),
 		Nontrivial: first.hasSki && len(first.skiExt) == 20,
-		Key:        fmt.Sprintf("out|%s|%s", dialled, coqCerts(chain)),
+		Key:        fmt.Sprintf("out|%s|%s|%v", dialled, coqCerts(chain), pairPresented),
 		Kind:       kind,
-		Sample: map[string]any{"session": "outbound: hub.Hub dials a TLS websocket server", "dialled_ski": dialled, "server_chain": cs,
+		Sample: map[string]any{"session": "outbound: hub.Hub dials a TLS websocket server", "dialled_ski": dialled, "presented_ski_is_paired_too": pairPresented, "server_chain": cs,
 			"bytes_received_after_upgrade": ob.bytes, "first_frame_is_ship_init": ob.initSeen, "registered_skis": ob.regSKIs, "accepted": ob.accepted},
 	}, nil
 }
